@@ -188,6 +188,9 @@ pub enum MonitorCmd {
     ForceClose(PeerId),
     /// return from `run()` (drops the `TransportService`: the protocol has shut down)
     Exit,
+    /// stop polling the `TransportService` (its event channel fills up) until `Resume`
+    Pause,
+    Resume,
 }
 
 #[derive(Clone)]
@@ -235,7 +238,19 @@ impl UserProtocol for Monitor {
     }
 
     async fn run(mut self: Box<Self>, mut service: TransportService) -> litep2p::Result<()> {
+        let mut paused = false;
         loop {
+            if paused {
+                match self.cmd_rx.recv().await {
+                    None | Some(MonitorCmd::Exit) => {
+                        self.log.lock().push(Seen::Exited);
+                        return Ok(());
+                    }
+                    Some(MonitorCmd::Resume) => paused = false,
+                    Some(_) => {}
+                }
+                continue;
+            }
             tokio::select! {
                 biased;
                 cmd = self.cmd_rx.recv() => match cmd {
@@ -254,6 +269,8 @@ impl UserProtocol for Monitor {
                     Some(MonitorCmd::ForceClose(peer)) => {
                         let _ = service.force_close(peer);
                     }
+                    Some(MonitorCmd::Pause) => paused = true,
+                    Some(MonitorCmd::Resume) => {}
                 },
                 event = service.next() => match event {
                     None => {
